@@ -113,6 +113,10 @@ def monitor(case: Case, out: list[str]):
     return None
 
 
+def _monitor(case: Case, out: list[str]):
+    return None if case.tag == "malformed" else monitor(case, out)
+
+
 def _desc(depth, g, n, gran, r, w) -> dict:
     return {"component": "AsyncMemoryBank", "depth": depth, "g": g, "n": n, "gran": gran, "r": r, "w": w}
 
@@ -172,7 +176,7 @@ def configs(ctx: Check) -> list[dict]:
 def gen_cases(ctx: Check):
     rng = ctx.rng("gen")
     good, malformed = [], []
-    cyc = ctx.pick(120, 1200)
+    cyc = ctx.pick(100, 1200)
     for d in configs(ctx):
         cfg = _cfg(d)
         # directed: write every row fully, read back, partial overwrite, read in the cycle of the write
@@ -231,10 +235,9 @@ def run(ctx: Check):
     for c in good:
         ctx.count(f"ports_r{c.desc['r']}w{c.desc['w']}")
         ctx.count("granular" if c.desc["gran"] is not None else "whole_word")
-    lockstep(ctx, "asyncmemorybank", "C22", good, impl, monitor, more_cases, nontrivial, procs=ctx.pick(1, None))
-    # outside the hypothesis (same-row simultaneous writes): model/implementation agreement only
-    if not ctx.violations:  # (a broken bank would only repeat itself here, without a monitor verdict)
-        lockstep(ctx, "asyncmemorybank-samerow", "C22", malformed, impl, None, None, nontrivial, procs=ctx.pick(1, None))
+    # one batch: cases with same-row simultaneous writes (tag "malformed", outside the hypothesis) are compared
+    # model-vs-implementation only, the monitor does not judge them
+    lockstep(ctx, "asyncmemorybank", "C22", good + malformed, impl, _monitor, more_cases, nontrivial, procs=ctx.pick(1, None))
     ctx.note("same-row simultaneous writes (outside the property's hypothesis) are compared model-vs-implementation only")
 
 
